@@ -160,12 +160,14 @@ STMTS = [
 ]
 
 
-def ob_statements(i: int, j: int, sep: int) -> Optional[str]:
-    if not (0 <= i < len(STMTS) and 0 <= j < len(STMTS) and 0 <= sep < 3):
+def ob_statements(i: int, j: int, sep: int, k: int = -1) -> Optional[str]:
+    if not (0 <= i < len(STMTS) and 0 <= j < len(STMTS) and 0 <= sep < 3 and -1 <= k < len(STMTS)):
         raise Skip()
     a, b = _pick(STMTS, i), _pick(STMTS, j)
     s = _pick(["\n", "\n\n\n\n", "\n# c\n"], sep)
     src = a + s + b + "\n"
+    if k >= 0:
+        src = src + _pick(STMTS, k) + "\n"
     r = concretely(_fmt_check, src)
     if r:
         k, rest = r.split(":", 1)
@@ -237,9 +239,12 @@ OBLIGATIONS = [
                parts={"quick": [dict(style=s, l1=x) for s in range(3) for x in range(4)]}, timeout={"quick": 240, "thorough": 600},
                regions={"C17-trailing-space-in-multiline-string": _region_trailing}, symbolic="symbol index per position"),
     Obligation("statements", ob_statements,
-               bounds=f"every ordered pair of {NSTM} statements (Python, subprocess lines, macros-free, comments, continuation lines, tab / 2 / 4 / 8 "
+               bounds=f"every ordered pair (thorough: also every ordered triple) of {NSTM} statements (Python, subprocess lines, macros-free, comments, continuation lines, tab / 2 / 4 / 8 "
                       "space indentation, f-strings) joined by one newline, a blank-line run or a comment",
-               pre=[f"0 <= i < {NSTM}", f"0 <= j < {NSTM}"], parts={"quick": [dict(sep=s) for s in range(3)]}, timeout={"quick": 240, "thorough": 600},
+               pre=[f"0 <= i < {NSTM}", f"0 <= j < {NSTM}", f"-1 <= k < {NSTM}"],
+               parts={"quick": [dict(sep=s, k=-1) for s in range(3)],
+                      "thorough": [dict(sep=s, k=-1) for s in range(3)] + [dict(sep=0, i=a) for a in range(NSTM)]},
+               timeout={"quick": 240, "thorough": 900},
                symbolic="statement indices"),
     Obligation("write_back", ob_write_back, bounds=f"{len(FILES)} files (ASCII and multi-byte UTF-8, shrinking and growing) rewritten in place by the CLI",
                pre=["0 <= i < 7"], timeout={"quick": 120, "thorough": 120}, symbolic="file index"),
